@@ -83,7 +83,11 @@ def _size(rng):
     return int(rng.choice([0, 1, 1, 2, 2, 3, 7, 12, 13]))
 
 
-def _times(rng, n):
+def _times(rng, n, big_ints=False):
+    if big_ints and rng.random() < 0.1:
+        # nanosecond epoch stamps (exact as integers, not as float64) - time courses keep times as attributes
+        t0 = 1_700_000_000_123_456_789
+        return [int(t0 + i * int(rng.integers(1, 1000))) for i in range(n)]
     mode = int(rng.integers(0, 10))
     if mode == 7:  # not monotonic: two runs appended, time restarts (also gives repeated values)
         k = max(1, n // 2)
@@ -114,6 +118,10 @@ def _times(rng, n):
 
 def gen(rng, kind, tier):
     case = _gen(rng, kind, tier)
+    if case is not None and rng.random() < 0.12:
+        case["overwrite"] = True  # the path already holds an earlier, longer collection of the same kind
+    if case is not None and case["type"] == "Emulsion" and rng.random() < 0.15:
+        case["stale_dtype"] = True  # emulsion created empty for another droplet class and filled afterwards
     if case is not None and rng.random() < 0.3:
         # additional information stored alongside (documented argument of to_file)
         case["info"] = [{"note": "run 7"}, {"time_000000": 1, "track_000000": [1, 2]}, {"emulsion": {"a": None}},
@@ -159,7 +167,7 @@ def _gen(rng, kind, tier):
         for _ in range(n):
             k = 0 if rng.random() < 0.25 else int(rng.integers(1, 5))
             frames.append(members(k, lay if same else _layout(rng)))
-        return {"type": typ, "frames": frames, "times": _times(rng, n)}
+        return {"type": typ, "frames": frames, "times": _times(rng, n, big_ints=True)}
     n = _size(rng)
     same = rng.random() < 0.6
     lay = _layout(rng)
@@ -183,6 +191,11 @@ def build(case):
     import droplets
 
     t = case["type"]
+    if t == "Emulsion" and case.get("stale_dtype") and case["members"]:
+        dim = len(case["members"][0]["pos"])
+        em = droplets.Emulsion.empty(droplets.SphericalDroplet(np.zeros(dim), 1.0))
+        em.extend([_mk(d) for d in case["members"]])
+        return em
     if t == "Emulsion":
         return droplets.Emulsion([_mk(d) for d in case["members"]])
     if t == "DropletTrack":
@@ -225,6 +238,26 @@ def snap(obj):
     if isinstance(obj, droplets.DropletTrackList):
         return ("L", [snap(t) for t in obj])
     raise TypeError(type(obj))
+
+
+def _write_longer(obj, path):
+    """Leave an earlier file of the same kind with more entries at the path (its content is irrelevant)."""
+    import droplets
+
+    if isinstance(obj, droplets.EmulsionTimeCourse):
+        extra = droplets.EmulsionTimeCourse(list(obj.emulsions) + [droplets.Emulsion([droplets.SphericalDroplet([1.0, 2.0], 0.5)])] * 3,
+                                            times=list(obj.times) + [1e6, 1e6 + 1, 1e6 + 2])
+        extra.to_file(path)
+    elif isinstance(obj, droplets.DropletTrackList):
+        extra = droplets.DropletTrackList(list(obj))
+        for k in range(3):
+            extra.append(droplets.DropletTrack([droplets.SphericalDroplet([1.0], 0.5 + k)], times=[float(k)]))
+        extra.to_file(path)
+    elif isinstance(obj, droplets.DropletTrack):
+        droplets.DropletTrack([droplets.SphericalDroplet([1.0, 0.0, 0.0], 0.5 + k) for k in range(len(obj) + 3)],
+                              times=list(range(len(obj) + 3))).to_file(path)
+    else:
+        droplets.Emulsion([droplets.SphericalDroplet([1.0, 0.0, 0.0], 0.5 + k) for k in range(len(obj) + 3)]).to_file(path)
 
 
 def _all_members(case):
@@ -271,6 +304,10 @@ def run(case, rec):
             rec.evaluated(nontrivial=False)
         return
     obj = built.result
+    if case.get("overwrite"):
+        pre = common.monitored(rec, "earlier-write", _write_longer, obj, path)
+        if pre.ok:
+            rec.count("written_over_an_earlier_longer_file")
     before = snap(obj)
     info = case.get("info")
     if info is not None and case["type"] != "Emulsion":
